@@ -67,6 +67,7 @@ class Ctx(object):
         self.specfun_decl = {}
         self.notes = []
         self.inputs = {}         # model extraction: label -> value structure
+        self.ob_assume_idx = set()
         self.heap_bound = {}     # heap constant name -> alloc counter bounding every address stored in it
 
     def fresh(self, prefix, sort):
@@ -117,8 +118,11 @@ class Ctx(object):
         ob.trivial = triv or (pc.is_bool() and not pc.val)
         ob.func = self.fname
         self.obligations.append(ob)
-        # assert-then-assume
-        self.assume(implies(pc, cond))
+        # assert-then-assume (remembered so that batched checks can leave these facts out)
+        t_ = implies(pc, cond)
+        if not (t_.is_bool() and t_.val):
+            self.ob_assume_idx.add(len(self.asserts))
+            self.asserts.append(t_)
         return ob
 
 
@@ -133,6 +137,9 @@ class Exec(object):
         self.specs = specs
         self.fname = fname
         self.fn = prog.funcs[fname]
+        if opts and opts.get('unroll') is not None:
+            from .unroll import unroll_function
+            self.fn = unroll_function(self.fn, opts['unroll'], opts.get('default_unroll', 2))
         self.ctx = Ctx(prog, specs, fname)
         self.opts = opts or {}
         self.spec = specs.funcs.get(fname)
@@ -219,6 +226,8 @@ class Exec(object):
                 self.old.heap[name] = h
             return h
         if h is None:
+            if sort is None:
+                sort = self.ctx.declared['H0:' + name][1]
             h = self.ctx.declare_const('H0:' + name, sort)
             self.ctx.heap_bound[h.val] = self.alloc0
             st.heap[name] = h
@@ -246,6 +255,8 @@ class Exec(object):
         isaddr = self.kind(tid) == 'pointer'
         if not rng and not isaddr:
             return
+        if self.opts.get('ground'):
+            return
         for b in self.base_consts(h):
             key = ('valid', b.val)
             if key in self.ctx.assumptions:
@@ -268,6 +279,8 @@ class Exec(object):
 
     def valid_header_heaps(self, st, hs, is_slice):
         """hs: dict part->heap term for a slice/string header stored in field heaps"""
+        if self.opts.get('ground'):
+            return
         bases = {}
         for part, h in hs.items():
             bs = self.base_consts(h)
@@ -293,6 +306,24 @@ class Exec(object):
         if is_slice:
             self.ctx.assume(forall([p], body, [g('cap')]))
 
+    def ground_valid(self, v, tid):
+        """bounded mode: type-range fact for one loaded value instead of a quantified heap axiom"""
+        if not isinstance(v, T) or v.op in ('int', 'bool') or v.sort != INT:
+            return
+        key = ('gv', v)
+        if key in self.ctx.assumptions:
+            return
+        rng = self.prog.int_range(tid) if self.kind(tid) == 'basic' else None
+        if rng and rng[1] < 2 ** 62 and not self.has_bound_term(v):
+            self.ctx.assumptions.add(key)
+            self.ctx.assume(and_(le(I(rng[0]), v), le(v, I(rng[1]))))
+
+    def has_bound_term(self, t):
+        for x in subterms(t):
+            if x.op == 'const' and ('?' in x.val or x.val.endswith('!') and len(x.val) <= 3 or x.val.startswith('$')):
+                return True
+        return False
+
     def hs_name(self, etid):
         return 'HS:' + self.elem_key(etid)
 
@@ -311,6 +342,8 @@ class Exec(object):
             h = self.heap_get(st, self.hs_name(etid), self.hs_sort(etid))
             self.valid_scalar_heap(h, etid, True)
             v = select(select(h, arr_), absidx)
+            if self.opts.get('ground'):
+                self.ground_valid(v, etid)
             return self.wrap_scalar(v, etid, st)
         # aggregate element: object at elem address
         return self.obj_load(st, etid, self.elemaddr(arr_, absidx))
@@ -330,6 +363,12 @@ class Exec(object):
 
     def elemaddr(self, a, i):
         self.ctx.declare_fun('elem', (INT, INT), INT)
+        if self.opts.get('ground'):
+            r_ = app('elem', (a, i), INT)
+            if ('ge', r_) not in self.ctx.assumptions and not self.has_bound_term(r_):
+                self.ctx.assumptions.add(('ge', r_))
+                self.ctx.assume(lt(r_, ZERO))
+            return r_
         if 'elem' not in self.ctx.assumptions:
             self.ctx.assumptions.add('elem')
             self.ctx.declare_fun('elem.a', (INT,), INT)
@@ -341,6 +380,13 @@ class Exec(object):
 
     def subaddr(self, stid, fname, p):
         fn_ = 'sub:%s.%s' % (self.tname(stid), fname)
+        if self.opts.get('ground'):
+            self.ctx.declare_fun(fn_, (INT,), INT)
+            r_ = app(fn_, (p,), INT)
+            if ('gs', r_) not in self.ctx.assumptions and not self.has_bound_term(r_):
+                self.ctx.assumptions.add(('gs', r_))
+                self.ctx.assume(lt(r_, ZERO))
+            return r_
         if fn_ not in self.ctx.declared:
             self.ctx.declare_fun(fn_, (INT,), INT)
             self.ctx.declare_fun(fn_ + '~', (INT,), INT)
@@ -390,6 +436,8 @@ class Exec(object):
             h = self.field_heap(st, stid, path, self.sort_of(ftid))
             self.valid_scalar_heap(h, ftid, False)
             v = select(h, p)
+            if self.opts.get('ground'):
+                self.ground_valid(v, ftid)
             return self.wrap_scalar(v, ftid, st)
         if k == 'slice':
             hs = dict((s, self.field_heap(st, stid, path + '.' + s, INT)) for s in ('arr', 'off', 'len', 'cap'))
